@@ -52,7 +52,8 @@ def gen(rng, V, depth, pools):
             f = V.rand_factors(rng, nmax=1)
             return ("lit", "0 " + G.text(f, rng), F(0), V.factors_si(f)[1])
         pool = rng.choice(pools)
-        f = V.rand_factors(rng, nmax=rng.choice([1, 1, 2, 3]), pool=pool)
+        # (now and then a literal of 9-14 distinct units, prefixes included: per-component tables of fixed size, seed C13-i)
+        f = V.rand_factors(rng, nmax=rng.choice([1, 1, 2, 3]) if rng.random() < 0.97 else rng.choice([9, 12, 14, 20]), pool=pool)
         s, dims = V.factors_si(f)
         xs, x = mag(rng)
         form = rng.random()
